@@ -382,9 +382,13 @@ Qed.
 
 (* ---------------------------------------------------------------- the wider class of step blocks *)
 Definition no_or (l : list tok) : bool := negb (existsb (fun t => tk_eqb (kind t) KOr) l).
-(* the name of a braced component: the tokens up to the next `{` (or marker) *)
+(* the name of a braced component: the tokens up to the next `{`; when a marker comes first the
+   component is a single word, which holds no `|` *)
 Definition name_ok (r : list tok) : bool :=
-  match position is_marker_or_open r with Some n => no_or (firstn n r) | None => true end.
+  match position is_marker_or_open r with
+  | Some n => negb (tk_eqb (head_kind (skipn n r)) KOpenBrace) || no_or (firstn n r)
+  | None => true
+  end.
 
 Definition local_ok2 (t : tok) (r : list tok) : bool :=
   (if is_marker (kind t) then negb (is_modifier_kind (head_kind r)) && name_ok r else true)
@@ -433,7 +437,8 @@ Proof.
   apply andb_prop in L. destruct L as [_ Ln].
   destruct (comp_body_char _ _ _ E) as [[n [ob [r' [m [[P1 [S1 [K1 P2]]] [Hn Hq]]]]]] | [Hq [Hn NB]]].
   - split; [|split].
-    + rewrite Hn. apply no_or_position. unfold name_ok in Ln. rewrite P1 in Ln. exact Ln.
+    + rewrite Hn. apply no_or_position. unfold name_ok in Ln. rewrite P1, S1 in Ln. cbn [head_kind] in Ln.
+      rewrite K1 in Ln. exact Ln.
     + intros q Eq. rewrite Hq in Eq.
       destruct (existsb _ (firstn m r')) eqn:Ne; inversion Eq; subst q.
       pose proof (core2_skipn n _ Hc1) as Hc2. rewrite S1 in Hc2.
@@ -850,7 +855,7 @@ Proof.
     + destruct r as [|t2 r2]; [reflexivity|]. unfold head_kind in *. inversion Gr; subst.
       unfold goodt in H1. destruct (kind t2); try reflexivity; try discriminate H1; discriminate Lm.
     + unfold name_ok. destruct (position is_marker_or_open r); [|reflexivity].
-      apply good_no_or_b, Forall_firstn', Gr.
+      rewrite (good_no_or_b _ (Forall_firstn' _ _ _ Gr)). apply orb_true_r.
   - destruct (tk_eqb (kind t) KOpenBrace); [|reflexivity].
     unfold qty_ok in Lb. unfold qty_ok2, is_blank_qty.
     destruct (forallb (fun t0 => is_ws_block (kind t0)) (until_close r)); [reflexivity|].
